@@ -52,7 +52,7 @@ def unaffected_data_functions(prog, kind, info):
 def plan_program(seed, n_edits):
     """The histories to run for one random program: (label, kind, info, events)."""
     rng = random.Random(seed)
-    prog = P.gen_program(rng)
+    prog = P.gen_program(rng, allow_classes=(seed % 3 == 0))      # every third pipeline may contain plain classes
     call = P.root_call(prog, rng)
     kept = {n for (_, n) in P.kept_only_functions(prog)}
     if call.get("style") in ("keep", "direct"):
